@@ -423,6 +423,11 @@ func runScheme[FE algebra.PrimeFieldElement[FE]](ctx *fieldCtx[FE], a vh.Args, s
 						break
 					}
 					if cerr != nil {
+						if sh.Value().Size() == 0 {
+							// same input class after a repair that turns the panic into an error: still refused
+							prop("isn-empty-share-toadditive-panic", fmt.Sprintf("ConvertShareToAdditive(share of %d, quorum %v) refused: empty chunk map", id, s))
+							emptyPanic = true
+						}
 						tt = "E"
 						break
 					}
